@@ -3,6 +3,7 @@ import Hive.Proofs.SerixJsonOrder
 import Hive.Proofs.SerixJsonDeep
 import Hive.Proofs.SerixJsonCanon
 import Hive.Proofs.SerixJsonCanonId
+import Hive.Proofs.SerixJsonEncOrder
 import Hive.Spec.SerixJsonSource
 import Hive.Gen.C01b_Facts
 /-!
@@ -60,6 +61,23 @@ theorem C01_json_map_any_iteration_order (b : Bounds) (k e : JTy) (es es' : List
     (hp : es.Perm es') (h : mapEncode fc o (.map b k e) (.map es') = .ok j') :
     mapDecode fc o (.map b k e) j' = .ok (.map es') ∧ es'.Perm es :=
   ⟨C01_json_roundtrip fc o _ _ _ ht (valOk_map_perm fc b k e hp hv) h, hp.symm⟩
+
+/-- **The encoder does not depend on Go's map iteration order, at any depth.**  `VEquiv v v'`: the same Go
+value, the entries of every map (however deeply nested: inside slices, struct fields, embedded / inlined structs,
+pointers, interface values, map values) listed in another order — which is all that two runs of `reflect.MapRange`
+over the same map can differ in.  Whenever the first encoding succeeds so does the second, and the two documents
+are the same JSON object: they differ only in the order of the members of their objects (`JPerm`).  `JSONEncode`
+prints members in insertion order, so the *bytes* of two encodings of a value holding a map with two or more
+entries may differ (the harness counts it: `encode-twice:member-order-differs`); the `map[string]any` a reader
+gets is the same, and `C01_json_key_order_irrelevant` says the decoder cannot tell the difference. -/
+theorem C01_json_encode_order_irrelevant (t : JTy) (v v' : Val) (j : Json) (ht : JsonExpressible t)
+    (hv : WellTyped fc t v) (hq : VEquiv v v') (h : mapEncode fc o t v = .ok j) :
+    ∃ j', mapEncode fc o t v' = .ok j' ∧ JPerm j j' :=
+  encord_ty fc o t v v' j ht hv hq h
+
+/-- `omitempty` decisions (`reflect.Value.IsZero` / `isValueEmpty`) do not look at the order of map entries. -/
+theorem C01_json_isEmpty_order_irrelevant (t : JTy) (v v' : Val) (hq : VEquiv v v') :
+    isEmpty t v' = isEmpty t v := isEmpty_vequiv t hq
 
 /-! ### member order of the decoded document -/
 
@@ -250,6 +268,17 @@ example : ∃ j, mapEncode exFc ⟨true⟩ (.slice nb .time)
   have := C01_json_roundtrip_canon exFc ⟨true⟩ (fun _ _ => ⟨0x3fdc28f5c28f5c29, by simp [exFc]⟩) _ _ j (by decide) (by decide) hj
   rw [this]
   simp [canon, pow2, maxNano]
+
+/-- the hypotheses of `C01_json_encode_order_irrelevant` are satisfiable: a struct holding a map of slices, the
+two entries listed in either order. -/
+example : JsonExpressible (.struct none (.named "m" false false (.map nb (.str nb) (.slice nb (.uint 16))) .nil)) ∧
+    WellTyped exFc (.struct none (.named "m" false false (.map nb (.str nb) (.slice nb (.uint 16))) .nil))
+      (.struct [.map [(.str "a", .list [.num 1]), (.str "b", .nil)]]) ∧
+    VEquiv (.struct [.map [(.str "a", .list [.num 1]), (.str "b", .nil)]])
+      (.struct [.map [(.str "b", .nil), (.str "a", .list [.num 1])]]) := by
+  refine ⟨by decide, by decide, ?_⟩
+  exact .struct (.cons (.map (es' := [(.str "a", .list [.num 1]), (.str "b", .nil)])
+    (.cons (.refl _) (.cons (.refl _) .nil)) (List.Perm.swap _ _ _)) .nil)
 
 /-- the hypotheses of `C01_json_key_order_irrelevant` are satisfiable: a document with a nested
 object, both levels permuted. -/
